@@ -35,6 +35,10 @@ def main():
     if r.returncode != 0:
         print(r.stderr)
         return 2
+    # a private copy of the Coq tree (sources, compiled files, certificate caches): the fragments regenerated from the
+    # patched sources must not be seen by anybody else's build
+    coqcopy = "/tmp/coqseed_%s" % name
+    sh("rsync -a --delete %s/ %s/" % (os.path.join(ROOT, "coq"), coqcopy))
     res = {"seed": name, "repo_head": sh("git -C /repo rev-parse --short HEAD").stdout.strip(), "tier": a.tier, "checks": {}}
     try:
         r = sh("git -C %s apply %s" % (wt, os.path.join(d, "patch.diff")))
@@ -44,7 +48,7 @@ def main():
             return 2
         for pid in props:
             t0 = time.time()
-            env = dict(os.environ, VERIF_REPO=wt)
+            env = dict(os.environ, VERIF_REPO=wt, VERIF_COQ=coqcopy)
             p = subprocess.run([os.path.join(ROOT, "check"), pid, "--tier", a.tier], cwd=ROOT, env=env, capture_output=True, text=True)
             viol = [l for l in p.stdout.splitlines() if l.startswith("VIOLATION")]
             res["checks"][pid] = {"exit": p.returncode, "violations": viol[:5], "wall_s": round(time.time() - t0, 1),
@@ -66,8 +70,7 @@ def main():
             shutil.rmtree(os.path.join(core.CACHE, "target", core.sha(wt, cfg)), ignore_errors=True)
             shutil.rmtree(os.path.join(core.CACHE, "harness", core.sha(wt, cfg)), ignore_errors=True)
         sh("git -C /repo worktree remove --force %s; git -C /repo branch -D wt_seed_%s" % (wt, name))
-        # the generated Coq fragments were rewritten from the worktree: restore them from /repo
-        sh("python3 %s --repo /repo --out %s" % (os.path.join(ROOT, "tools", "translate.py"), os.path.join(ROOT, "coq", "gen")))
+        shutil.rmtree(coqcopy, ignore_errors=True)
     json.dump(res, open(os.path.join(d, "result.json"), "w"), indent=1)
     return 0
 
